@@ -1,7 +1,155 @@
 (* C10 - config value expansion is a pure function of line, environment and variable store.
-   (statements are added as the proofs land) *)
-From LV Require Import Base.Buf Expand.ExpandModel.
+   Statements only, each closed by `exact`, followed by Print Assumptions; non-vacuity Examples
+   at the end.
+
+   Reading guide.  shell_expand genv pn pv fuel obj st is the model of spifconf_shell_expand(obj)
+   (coq/Expand/ExpandModel.v) with getenv = genv, program name / version pn / pv, the variable
+   store st; obj is the object that holds the input: `cstr s rest` = the characters s, the
+   terminator, then the cells `rest` (every cell access is checked: a read behind the object, or
+   of a cell nobody wrote, is a Fault).  shell_expand_reads is the part of the function that reads
+   its argument (everything before the final strcpy back into obj).  CB = CONFIG_BUFF as a nat,
+   maxj = CONFIG_BUFF - 1.  val_ok v: v has no NUL byte and is shorter than 4 GB;
+   store_ok st: names and values NUL-free and short, names strictly ascending.  expand_spec is
+   the specification (coq/Expand/ExpandSpec.v). *)
+From LV Require Import Base.Buf Strings.HelpersModel Split.SplitModel
+  Expand.ExpandModel Expand.ExpandSpec Expand.ExpandLemmas Expand.StoreProofs
+  Expand.ExpandProofs Expand.ExpandTheorems.
 Local Open Scope Z_scope.
 
-Example C10_ex_store : get_var (put_var (put_var [] [107] (Some [118])) [97] (Some [119])) [107] = Some [118].
+(* --- never reads past the end of its input: every NUL-free string shorter than CONFIG_BUFF in an
+       exactly sized object (nothing behind the terminator), every environment, every store.  This
+       covers inputs ending in \, %, $, ${, $(, %name( and an open quote: they are just strings. --- *)
+Theorem C10_expand_no_overread : forall genv pn pv,
+  (forall n v, genv n = Some v -> val_ok v) -> Forall nz_byte pn -> val_ok pv ->
+  forall s st, Forall nz_byte s -> (length s < CB)%nat -> store_ok st ->
+  exists r, shell_expand_reads genv pn pv (S (length s)) (cstr s []) st = Ok r.
+Proof. intros genv pn pv H1 H2 H3 s st. exact (expand_no_overread genv pn pv H1 H2 H3 s [] st). Qed.
+Print Assumptions C10_expand_no_overread.
+
+(* the same with anything behind the terminator, e.g. cells that were never written *)
+Theorem C10_expand_no_overread_any_slack : forall genv pn pv,
+  (forall n v, genv n = Some v -> val_ok v) -> Forall nz_byte pn -> val_ok pv ->
+  forall s rest st, Forall nz_byte s -> (length s < CB)%nat -> store_ok st ->
+  exists r, shell_expand_reads genv pn pv (S (length s)) (cstr s rest) st = Ok r.
+Proof. exact expand_no_overread. Qed.
+Print Assumptions C10_expand_no_overread_any_slack.
+
+(* --- every cell of newbuff below the final j has been written; j never exceeds CONFIG_BUFF --- *)
+Theorem C10_expand_cells_below_j_written : forall genv pn pv,
+  (forall n v, genv n = Some v -> val_ok v) -> Forall nz_byte pn -> val_ok pv ->
+  forall s rest st nb j st', Forall nz_byte s -> (length s < CB)%nat -> store_ok st ->
+  shell_expand_reads genv pn pv (S (length s)) (cstr s rest) st = Ok (LDone nb j st') ->
+  0 <= j <= config_buff /\ length nb = CB /\
+  exists pre, Z.of_nat (length pre) = j /\ firstn (Z.to_nat j) nb = bytes pre.
+Proof. exact expand_cells_written. Qed.
+Print Assumptions C10_expand_cells_below_j_written.
+
+(* --- total, initialised, terminated, bounded: on an object of CONFIG_BUFF (or more) cells, whatever
+       the cells behind the terminator hold (rest is arbitrary: painted, unwritten, anything), the
+       function returns without a fault - so it never returns Uninit_read: the result does not depend
+       on leftover memory - and a returned string is NUL-terminated inside the object, NUL-free
+       before that and shorter than CONFIG_BUFF; the store stays well-formed and sorted --- *)
+Theorem C10_expand_initialised : forall genv pn pv,
+  (forall n v, genv n = Some v -> val_ok v) -> Forall nz_byte pn -> val_ok pv ->
+  forall s rest st, Forall nz_byte s -> (length s < CB)%nat -> (CB <= length (cstr s rest))%nat -> store_ok st ->
+  exists x st', shell_expand genv pn pv (S (length s)) (cstr s rest) st = Ok (x, st') /\
+    store_ok st' /\
+    match x with
+    | XBuf s' => exists o junk, s' = cstr o junk /\ Forall nz_byte o /\ Z.of_nat (length o) < config_buff /\
+                                length s' = length (cstr s rest)
+    | _ => True
+    end.
+Proof. exact expand_initialised. Qed.
+Print Assumptions C10_expand_initialised.
+
+(* --- model = specification, for every input, environment and store, whenever the expanded text
+       and the expansion of every nested call argument stay below max - 1 characters (pk is the
+       longest nested expansion, m the number of characters produced before giving up).
+       SFuel (the specification running out of its counter) never happens. --- *)
+Theorem C10_expand_spec : forall genv pn pv,
+  (forall n v, genv n = Some v -> val_ok v) -> Forall nz_byte pn -> val_ok pv ->
+  forall s rest st, Forall nz_byte s -> (length s < CB)%nat -> (CB <= length (cstr s rest))%nat -> store_ok st ->
+  match expand_spec genv pn pv s st with
+  | SOut o st' pk =>
+    Z.of_nat (length o) < maxj -> Z.of_nat pk < maxj ->
+    shell_expand genv pn pv (S (length s)) (cstr s rest) st =
+    Ok (XBuf (cstr o (skipn (S (length o)) (cstr s rest))), st')
+  | SStop StNull st' m pk =>
+    Z.of_nat m < maxj -> Z.of_nat pk < maxj ->
+    shell_expand genv pn pv (S (length s)) (cstr s rest) st = Ok (XNull, st')
+  | SStop (StExt e) _ m pk =>
+    Z.of_nat m < maxj -> Z.of_nat pk < maxj ->
+    shell_expand genv pn pv (S (length s)) (cstr s rest) st = Ok (XExt e, st)
+  | SFuel => False
+  end.
+Proof. exact expand_spec_holds. Qed.
+Print Assumptions C10_expand_spec.
+
+(* --- the variable store: after any history of puts and deletions from the empty store the list
+       is strictly ascending by name and get k returns the value of the last put of k, unless k was
+       deleted afterwards --- *)
+Theorem C10_store_law : forall ops,
+  sorted (fold_left apply_sop ops []) /\
+  forall k, get_var (fold_left apply_sop ops []) k = last_write ops k.
+Proof. exact store_law. Qed.
+Print Assumptions C10_store_law.
+
+Theorem C10_store_one_entry_per_name : forall st, sorted st -> NoDup (map fst st).
+Proof. exact sorted_unique. Qed.
+Print Assumptions C10_store_one_entry_per_name.
+
+Theorem C10_store_put_get : forall st k v, get_var (put_var st k (Some v)) k = Some v.
+Proof. exact get_put_same. Qed.
+Print Assumptions C10_store_put_get.
+
+Theorem C10_store_other_names_untouched : forall st k val k', k' <> k ->
+  get_var (put_var st k val) k' = get_var st k'.
+Proof. exact get_put_other. Qed.
+Print Assumptions C10_store_other_names_untouched.
+
+Theorem C10_store_delete_get : forall st k, sorted st -> get_var (put_var st k None) k = None.
+Proof. exact get_delete_same. Qed.
+Print Assumptions C10_store_delete_get.
+
+(* --- the bounded copy used for ~, $VAR and built-in results is the C13 model of
+       spiftool_safe_strncpy(dest + off, src, size) (proved exact in Properties/C13.v) --- *)
+Theorem C10_copy_is_safe_strncpy : forall dest off src size, (off <= length dest)%nat ->
+  strncpy_off dest off src size = safe_strncpy_at dest off src size.
+Proof. exact strncpy_off_is_safe_strncpy_at. Qed.
+Print Assumptions C10_copy_is_safe_strncpy.
+
+(* ---------- non-vacuity: the hypotheses are met by concrete states and the model runs ---------- *)
+Definition ex_env : list (list byte * list byte) := [([72; 79; 77; 69], [47; 104]); ([65], [118; 97])].   (* HOME=/h A=va *)
+
+Example C10_ex_env_ok : forall n v, getenv_of ex_env n = Some v -> val_ok v.
+Proof.
+  apply getenv_of_ok. unfold ex_env, val_ok, small, nz_byte.
+  repeat (constructor; cbn [fst snd length]); lia.
+Qed.
+
+(* "x~$A.${A}%put(k v)[%get(k)]\n" in a CONFIG_BUFF object whose slack was never written *)
+Definition ex_text : list byte :=
+  [120; 126; 36; 65; 46; 36; 123; 65; 125; 37; 112; 117; 116; 40; 107; 32; 118; 41; 91; 37; 103; 101; 116; 40; 107; 41; 93; 92; 110].
+
+Example C10_ex_run :
+  match shell_expand (getenv_of ex_env) [69] [49] (S (length ex_text))
+                     (cstr ex_text (repeat None (CB - length ex_text - 1))) [] with
+  | Ok (XBuf b, st) => take_str b = [120; 47; 104; 118; 97; 46; 118; 97; 91; 118; 93; 10] /\ st = [([107], [118])]
+  | _ => False
+  end.
+Proof. vm_compute. split; reflexivity. Qed.
+
+Example C10_ex_spec :
+  expand_spec (getenv_of ex_env) [69] [49] ex_text [] =
+  SOut [120; 47; 104; 118; 97; 46; 118; 97; 91; 118; 93; 10] [([107], [118])] 3.
+Proof. vm_compute. reflexivity. Qed.
+
+(* inputs that end inside a construct, in exactly sized objects *)
+Example C10_ex_endings :
+  forallb (fun s => is_ok (shell_expand_reads (getenv_of ex_env) [69] [49] (S (length s)) (cstr s []) []))
+    [[92]; [37]; [36]; [36; 123]; [36; 40]; [36; 123; 65]; [37; 103; 101; 116; 40]; [39; 92]; [126]; [97; 96]] = true.
+Proof. vm_compute. reflexivity. Qed.
+
+Example C10_ex_store :
+  fold_left apply_sop [SPut [107] [118]; SPut [97] [119]; SPut [107] [120]; SDel [97]] [] = [([107], [120])].
 Proof. vm_compute. reflexivity. Qed.
